@@ -1111,7 +1111,8 @@ class Compiler:
                 # any outer scope vars that aren't our locals
                 nested_params = {p.name for p in node.params}
                 nested_locals = nested_params.copy()
-                nested_locals.add("arguments")
+                if not isinstance(node, ArrowFunctionExpression):
+                    nested_locals.add("arguments")
                 if isinstance(node.body, BlockStatement):
                     self._collect_var_decls(node.body, nested_locals)
                 nested_free = self._find_required_free_vars(node.body, nested_locals)
@@ -1159,7 +1160,9 @@ class Compiler:
         # New state for function
         self.bytecode = []
         self.constants = []
-        self.locals = [p.name for p in node.params] + ["arguments"]
+        # No own `arguments`: in an arrow function the name refers to the
+        # arguments object of the enclosing function (captured like a variable)
+        self.locals = [p.name for p in node.params]
         self.loop_stack = []
         self._in_function = True
 
